@@ -101,7 +101,7 @@ def const_int(F, o):
     return None
 
 
-def unreachable_when(F, f, site_bb, is_subject, values):
+def unreachable_when(F, f, site_bb, is_subject, values, is_empty_call=None):
     """Is `site_bb` unreachable whenever the subject quantity takes one of `values`?  Every
     comparison `subject <op> constant` (either order) is evaluated for the value and the edge
     not taken is removed; everything else stays non-deterministic.  Idiom-independent lower /
@@ -117,7 +117,19 @@ def unreachable_when(F, f, site_bb, is_subject, values):
             tests.append((st["rv"]["op"], None, cb_, ts))
         elif ca is not None and b["k"] != "const" and is_subject(b):
             tests.append((st["rv"]["op"], ca, None, ts))
-    if not tests:
+    # `x.is_empty()` of the container whose length is the subject: true iff the value is 0
+    if is_empty_call is not None:
+        for b, t in f.calls():
+            if is_empty_call(t):
+                ts, _ = call_result_tests(f, b, family="bool")
+                tests.append(("Eq", None, 0, ts))
+    # a `match len { 0 => .., _ => .. }` directly on the subject
+    direct = []
+    for b in sorted(f.reachable(0)):
+        t = f.blocks[b]["t"]
+        if t["k"] == "switch" and t["d"]["k"] in ("copy", "move") and not t["d"]["p"].get("p") and str(f.locals[t["d"]["p"]["l"]]) != "bool" and is_subject(t["d"]):
+            direct.append((b, [(int(x), y) for x, y in t["targets"]], t["otherwise"]))
+    if not tests and not direct:
         return False, 0
     for v in values:
         removed = set()
@@ -125,9 +137,16 @@ def unreachable_when(F, f, site_bb, is_subject, values):
             truth = OPS[op](v, cb_) if ca is None else OPS[op](ca, v)
             for t in ts:
                 removed.update(t.failure if truth else t.success)
+        for b, tg, oth in direct:
+            hit = dict(tg).get(v, oth)
+            for x, y in tg:
+                if y != hit:
+                    removed.add((b, y))
+            if oth != hit:
+                removed.add((b, oth))
         if site_bb in reachable_fs(f, 0, removed_edges=removed):
-            return False, len(tests)
-    return True, len(tests)
+            return False, len(tests) + len(direct)
+    return True, len(tests) + len(direct)
 
 
 def private_fields(F, rep, adt_path, why):
